@@ -12,10 +12,16 @@ RULE = ("one op = one call of one combinator on values over D={0,1,2} with conti
         "both sides print the result and the ordered log of continuation calls with their arguments. Exhaustive over all "
         "optionals/eithers/variants, all value categories (L non-const lvalue, C const lvalue, R rvalue), all unary function "
         "tables (27 D->D, 64 D->optional D, 216 D->either, 8 D->bool), all containers up to length 4; all 3^9 binary tables via "
-        "`all9` digests (every input and category, both tiers); 27- and 81-entry tables sampled. "
-        "weight(all9 line)=19683. Non-trivial = a continuation was called or the result is not the empty optional.")
+        "`all9` digests (every input and category, both tiers); 27- and 81-entry tables sampled. Systematic batches for what "
+        "single-operation batches cannot see: a different value category per argument, one object as both operands, "
+        "continuations returning references, continuations that throw (table entry X), self-assignment / self-move / "
+        "self-swap, containers of length 5..13, other container types. The whole public API of optional/, either/, variant/ "
+        "and monad/ is an operation (104 kinds); a generated line the model rejects or an operation kind no batch generates "
+        "is a violation. weight(all9 line)=19683. Non-trivial = a continuation was called or the result is not the empty optional.")
 ASSUMPTIONS = [
-    "fcppt::optional::object<T> = Option T; either::object<F,S> = two-constructor sum; variant::object<Ts...> = (index, value of that type); the valueless std::variant state is not reachable through the modelled operations",
+    "fcppt::optional::object<T> = Option T; either::object<F,S> = two-constructor sum; variant::object<Ts...> = (index, value of that type), or `none` for the valueless state, which is reached only through an assignment whose construction throws",
+    "references / pointers are names of objects (copy_value, deref, from_pointer, to_pointer, to_optional_ref, dynamic_cast_): the harness checks identity by address and by writing through them",
+    "the implicitly defined copy/move members and std::swap of the three classes are those of std::optional / std::variant (modelled as replacement of the whole value)",
     "continuations are deterministic functions of their arguments and their own state (state monad K); exceptions are faults that keep the state",
     "std::visit, std::holds_alternative, std::get_if, std::variant's == and < behave as specified by the C++ standard",
     "parametricity of the templates carries the finite-domain correspondence to all element types (informal, named in DESIGN.md)",
@@ -512,9 +518,13 @@ MANIFEST = {
                    "its has_value/has_success/holds_type test and get_unsafe, continuations being arbitrary computations in a state+fault "
                    "monad: functor/monad/applicative laws, branch selection with exactly-once invocation (as equations between effectful "
                    "computations), documented results of filter/alternative/combine/cat/sequence/first_success/loop/try_call, and "
-                   "unreachability of get_unsafe on the wrong alternative, for all types, values, continuations and container lengths. "
+                   "unreachability of get_unsafe on the wrong alternative, for all types, values, continuations and container lengths; "
+                   "also the rest of the public API (to_container, copy_value, deref, maybe_void_multi, assign, from/to_pointer, "
+                   "to_exception, operator<<, either ==, construct, error_from_optional, sequence_error, to_optional_ref, "
+                   "dynamic_cast_, the valueless state, monad::chain / do_ / return_). "
                    "The model is tied to the code by a differential correspondence over D={0,1,2} that is exhaustive over all values, value "
-                   "categories, unary function tables, containers up to length 4 and (thorough) all 3^9 binary tables."),
+                   "categories (also mixed per argument), unary function tables, containers up to length 4, all 3^9 binary tables, "
+                   "aliased operands, throwing continuations, reference-returning continuations and every public member."),
     "level_note": ("Trusted: Lean kernel + propext/Classical.choice/Quot.sound; the hand-written model's fidelity outside the exercised "
                    "inputs (parametricity is the informal bridge from D to all types); harness and line protocol; std::variant/std::visit. "
                    "No sorry/axiom/native_decide."),
